@@ -81,6 +81,46 @@ Theorem C12_settings_govern_every_handshake : forall e c,
 Proof. exact (fun e c => do_req_sound altsvc_only_unforced e c). Qed.
 Print Assumptions C12_settings_govern_every_handshake.
 
+(* Forcing after first use: whatever the client did before - requests on any version, cached connections,
+   learned Alt-Svc entries, clones - once a version is forced the next request uses it or fails. *)
+Theorem C12_forced_after_any_history : forall e c0 ops f v,
+  version_of f = Some v ->
+  let c := snd (run e c0 (ops ++ [OForce f])) in
+  match outcome_of (do_req e c) with
+  | Use v' => v' = v
+  | Cleartext => c_plain_dialtls c = true /\ e_https e = true
+  | Fail _ => True
+  end.
+Proof. exact forced_after_any_history. Qed.
+Print Assumptions C12_forced_after_any_history.
+
+(* Uniformity of the decision: a request that has no connection to reuse - on whatever version the dispatch
+   ends up: forced 1.1 / 2 / 3, unforced, through a learned Alt-Svc entry - is refused when the origin is
+   unacceptable under the client's settings (wrong root, wrong name, missing client certificate, no skip) and
+   is never refused for its certificate when the origin is acceptable. *)
+Theorem C12_new_connection_decided_by_settings : forall e c,
+  e_https e = true -> c_plain_dialtls c = false -> no_conns c ->
+  (acceptable e c = false -> exists er, outcome_of (do_req e c) = Fail er) /\
+  (acceptable e c = true -> outcome_of (do_req e c) <> Fail ECert).
+Proof. exact new_connection_decided_by_settings. Qed.
+Print Assumptions C12_new_connection_decided_by_settings.
+
+(* A clone that is configured differently, used and dropped leaves the original client exactly as it was
+   (settings, switches, connection caches, Alt-Svc bookkeeping); the clone itself starts from the original's
+   settings and switches with no connection of its own. *)
+Theorem C12_clone_independent : forall e c a,
+  snd (step e c (OFork a)) = c /\
+  c_tls (do_clone c) = c_tls c /\ c_force (do_clone c) = c_force c /\ c_h3 (do_clone c) = c_h3 c /\
+  no_conns (do_clone c) /\ c_alt (do_clone c) = ANone.
+Proof.
+  exact (fun e c a => conj (fork_leaves_original altsvc_only_unforced e c a)
+    (match clone_spec c with
+     | conj t (conj f (conj h (conj _ (conj i (conj i1 (conj t2 (conj t3 al))))))) =>
+         conj t (conj f (conj h (conj (conj i (conj i1 (conj t2 t3))) al)))
+     end)).
+Qed.
+Print Assumptions C12_clone_independent.
+
 (* the two defects of the pinned tree, as theorems about the pinned variants of the same functions *)
 Theorem C12_tls_uniform_pinned_refuted :
   exists host o, sec (tls_view_pinned S3 false host o) <> sec (effective host o).
@@ -105,3 +145,16 @@ Example C12_forced_nonvacuous :
      ObsBg [mkDial S3 (bs "localhost") [alpn_h3] true] AObsReady;
      ObsReq (Use V1) []].
 Proof. exact forced_fixed_example. Qed.
+
+(* non-vacuity of the uniformity clause: same settings, the three forced versions, an origin offering all three:
+   accepted three times under the issuing root, refused three times under another root *)
+Example C12_uniform_nonvacuous :
+  map (fun f => fst (run h3_env new_client [OAddRoot 1%N; OForce f; OReq])) [FH1; FH2; FH3] =
+    [[ObsCfg; ObsCfg; ObsReq (Use V1) [mkDial S1 (bs "localhost") [] true]];
+     [ObsCfg; ObsCfg; ObsReq (Use V2) [mkDial S2 (bs "localhost") [alpn_h1; alpn_h2] true]];
+     [ObsCfg; ObsCfg; ObsReq (Use V3) [mkDial S3 (bs "localhost") [alpn_h3] true]]] /\
+  map (fun f => fst (run h3_env new_client [OAddRoot 2%N; OForce f; OReq])) [FH1; FH2; FH3] =
+    [[ObsCfg; ObsCfg; ObsReq (Fail ECert) [mkDial S1 (bs "localhost") [] false]];
+     [ObsCfg; ObsCfg; ObsReq (Fail ECert) [mkDial S2 (bs "localhost") [alpn_h1; alpn_h2] false]];
+     [ObsCfg; ObsCfg; ObsReq (Fail ECert) [mkDial S3 (bs "localhost") [alpn_h3] false]]].
+Proof. exact uniform_example. Qed.
